@@ -97,6 +97,11 @@ def run(ctx):
 
     stats = fam_dump.new_stats()
     fam_dump.check_records(ctx, vh, enum + rnd, lambda rid: "enum" if rid < len(enum) else "rand", stats)
+    # 5. history schedule (one process, in order): the result must not depend on which types were dumped before
+    hist = fam_dump.prepare(fam_dump.history_schedule(70 if quick else 140), table, len(enum) + len(rnd), named="needed")
+    if any("tn" in r for r in hist):
+        raise MachineryError("history schedule: a type needs a generated named type")
+    fam_dump.check_records(ctx, vh, hist, lambda rid: "hist", stats, tag="hist", seq=True)
     fam_dump.report(ctx, stats)
 
     if stats["drift"]:
@@ -134,10 +139,10 @@ def run(ctx):
 def replay(ctx):
     r = json.load(open(ctx.replay))["replay"]
     table = fam_dump.TypeTable(ctx.seed)
-    recs = fam_dump.prepare(r["trees"], table, 0, named="all")
+    recs = fam_dump.prepare(r["trees"], table, 0, named="needed" if r.get("seq") else "all")
     vh = ctx.build_vh(gen_files=table.gen_files(), name="vh")
     stats = fam_dump.new_stats()
-    fam_dump.check_records(ctx, vh, recs, lambda rid: "replay", stats)
+    fam_dump.check_records(ctx, vh, recs, lambda rid: "replay", stats, seq=bool(r.get("seq")))
     fam_dump.report(ctx, stats)
     return ctx.finish("model_checking", dict(evaluations=stats["judged"], distinct_nontrivial=stats["nontrivial"],
                                              traces_validated_against_impl=stats["judged"], samples=[r], replay=True), ASSUMPTIONS)
